@@ -56,6 +56,7 @@ def run(mid, checks=None, tier='quick', apply=False):
 
 
 def table():
+    """(seeded/_retired holds changes that a later repair of PGPy neutralised)"""
     rows = []
     for f in sorted(glob.glob(os.path.join(VERIF, 'seeded', '*', 'result.json'))):
         r = json.load(open(f))
